@@ -206,6 +206,9 @@ def _features(desc, h):
         f.append("trivial")
     if h["empty"]:
         f.append("empty_half")
+    P, S = h["snaps"]["parent"], h["snaps"]["test" if desc["test"] else "train"]
+    if S["plates"] and dict(zip(S["plates"], S["pids"])).items() - dict(zip(P["plates"], P["pids"])).items():
+        f.append("plate_ids_differ_from_parent")
     for o, before, after, err, extra in h["events"]:
         f.append("op_" + o[0])
         if err is not None:
